@@ -26,6 +26,8 @@ CASES = {
     'lap-v12':    ('G1', None, 'lap', '12'),
     'media2':     ('G7', 'two-circular-radials', 'none', '9'),
     'media1':     ('G8', 'one', 'imp', '13'),
+    'media2-circ-norad': ('G7', 'two-circular', 'none', '9'),        # circular boundary WITHOUT a ground screen: BASIC still asks for the radial count
+    'media2-linear': ('G9', 'two-linear', 'none', '12'),
     'media3lin':  ('G7', 'three-linear', 'none', '9'),
     'taper':      ('G11', None, 'imp', '9'),
     'arc':        ('G12', None, 'none', '9'),
@@ -51,6 +53,12 @@ def _media(M, kind, P):
         return [M.Medium(P['eps'][0], P['sig'][0])]
     if kind == 'two-circular-radials':
         return [M.Medium(P['eps'][0], P['sig'][0], nradials=16, radius=P['rr'], coord=P['u'][0], boundary='circular'),
+                M.Medium(P['eps'][1], P['sig'][1], height=P['h'][0])]
+    if kind == 'two-circular':
+        return [M.Medium(P['eps'][0], P['sig'][0], coord=P['u'][0], boundary='circular'),
+                M.Medium(P['eps'][1], P['sig'][1], height=P['h'][0])]
+    if kind == 'two-linear':
+        return [M.Medium(P['eps'][0], P['sig'][0], coord=P['u'][0]),
                 M.Medium(P['eps'][1], P['sig'][1], height=P['h'][0])]
     if kind == 'three-linear':
         return [M.Medium(P['eps'][0], P['sig'][0], coord=P['u'][0]),
@@ -309,7 +317,7 @@ def replay_basic(mm, case, P):
 def main(args):
     ck = Check('C18', args)
     ck.shadow_stats = symx.load().stats
-    names = ['free-imp', 'gnd-ideal', 'lap-v9', 'lap-v12', 'media2', 'taper', 'arc', 'wire+arc-fuzzy', 'taper-skin', 'taper-coat'] if ck.tier == 'quick' else list(CASES)
+    names = ['free-imp', 'gnd-ideal', 'lap-v9', 'lap-v12', 'media2', 'taper', 'arc', 'wire+arc-fuzzy', 'taper-skin', 'taper-coat', 'media2-circ-norad', 'media2-linear'] if ck.tier == 'quick' else list(CASES)
     run_parallel(ck, 'checks.c18', [('basic_input', (n,)) for n in names])
     ck.assumptions += ['%g/%.12g conversions read back exactly in this check (their 6-digit precision is what "to the precision of the '
                        'printed parameters" allows; the check is about units, order and content)',
